@@ -168,7 +168,11 @@ func (s *SQLRepository) LastDate(name string) (time.Time, error) {
 
 // Append adds the given snapshots to the asset with the given name.
 func (s *SQLRepository) Append(name string, snapshots <-chan *Snapshot) error {
+	done := make(chan struct{})
+
 	go func() {
+		defer close(done)
+
 		for snapshot := range snapshots {
 			_, err := s.appendQuery.Exec(
 				name,
@@ -185,6 +189,9 @@ func (s *SQLRepository) Append(name string, snapshots <-chan *Snapshot) error {
 			}
 		}
 	}()
+
+	// Append returns only after all snapshots are written.
+	<-done
 
 	return nil
 }
